@@ -1,2 +1,6 @@
 import GlyProofs.Front.WalkDen
+import GlyProofs.Front.ParseSound
+import GlyProofs.Front.LexSpec
+import GlyProofs.Front.Accept
 import GlyProofs.Props.C03
+import GlyProofs.Props.C15
